@@ -114,7 +114,9 @@ def shard(conn, skind, dt, maxk, fractional, T, F=2, only_assign=None, only_clea
     an updater applies learned delays) by the assignment rotated one place through the alphabet; from then on the output is the
     shift by the *new* delays of the same undelayed history."""
     tally = Tally()
-    maxdelay = maxk * dt
+    # the maximum delay is at least the largest per-synapse delay as it is actually represented (the float32 product maxk*dt may
+    # exceed the double product by one ulp, and with tolerance 0 a selector beyond the maximum is out of bounds)
+    maxdelay = max(maxk * dt, float(torch.tensor(float(maxk)) * dt))
     W = weight_for(conn, F)
     pos = free_positions(conn, F)
     isconv = conn in CONV_GEOM
@@ -139,7 +141,7 @@ def shard(conn, skind, dt, maxk, fractional, T, F=2, only_assign=None, only_clea
             continue
         D = torch.zeros_like(W)
         for p, k in zip(pos, assign):
-            D[p] = float(torch.tensor(k * dt))
+            D[p] = float(torch.tensor(float(k)) * dt)
         D1 = D
         for clear_at in ([None] + list(range(1, T)) if reassign_at is None else [None]):
             if only_clear != () and clear_at != only_clear:
@@ -155,6 +157,13 @@ def shard(conn, skind, dt, maxk, fractional, T, F=2, only_assign=None, only_clea
                     cu.dt = dt
                 if float64:  # the whole connection converted with .to(float64): delays, histories and selectors follow
                     cd, cu = cd.to(torch.float64), cu.to(torch.float64)
+                    # the delays are then given as float64 products k*dt (a float32 product converted to float64 is not a
+                    # multiple of the float64 step time any more and would legitimately be read as an off-grid delay)
+                    K64 = torch.zeros_like(W, dtype=torch.float64)
+                    for p, k in zip(pos, assign):
+                        K64[p] = float(k)
+                    cd.delay = K64 * dt
+                    D = K64 * dt
             except Exception as ex:
                 tally.violation(f"exception:construct:{conn}:{skind}:{type(ex).__name__}", case, repr(ex))
                 return tally
@@ -168,7 +177,7 @@ def shard(conn, skind, dt, maxk, fractional, T, F=2, only_assign=None, only_clea
                     assign2 = [alphabet[(alphabet.index(k) + 1 + j) % len(alphabet)] for j, k in enumerate(assign)]
                     D = torch.zeros_like(W)
                     for p, k in zip(pos, assign2):
-                        D[p] = float(torch.tensor(k * dt))
+                        D[p] = float(torch.tensor(float(k)) * dt)
                     case = {**case, "delays_in_steps_after_reassign": assign2}
                     try:
                         cd.delay = D.clone()
